@@ -42,9 +42,9 @@ def boundary_groups(rng, fc, sc, tier):
     sample, so a channel must not span decades)"""
     j0 = 1500000000 // fc
     day = 86400 // fc
-    js = set(range(j0, j0 + min(day, 1500 if tier == "quick" else 86400)))
+    js = set(range(j0, j0 + min(day, 400 if tier == "quick" else 20000)))
     if len(js) < day:
-        js.update(j0 + rng.randrange(0, day) for _ in range(500))
+        js.update(j0 + rng.randrange(0, day) for _ in range(300 if tier == "quick" else 5000))
     groups = [("day-2017-07-14", sorted(js))]
     groups.append(("epoch", [0, 1, 2, 3]))
     groups.append(("name-gains-a-digit", [cdiv(10 ** 9, fc) + o for o in (-2, -1, 0, 1)]))
@@ -200,7 +200,7 @@ def run(res):
                 "(config, range)")
     stats = {"E": 0, "L": 0, "N": 0, "rE": 0, "rL": 0, "rN": 0}
     nmodel = 0
-    per_cfg = 36 if quick else 160
+    per_cfg = 30 if quick else 120
     first = True
     ci = 0
     for (n, d) in RATES:
